@@ -256,7 +256,7 @@ def verify_fuc(spec, opts):
                     res.errors.append('z3: %s\n%s' % (e, traceback.format_exc(limit=20)))
             except Exception as e:  # engine bug
                 if record:
-                    res.errors.append('engine: %r\n%s' % (e, traceback.format_exc(limit=8)))
+                    res.errors.append('engine: %r\n%s' % (e, traceback.format_exc(limit=-14)))
             obls.extend(st.obls)
             if record:
                 for lbl in st.ghost.get('__cover__', ()):
